@@ -203,8 +203,9 @@ def run_case(case):
                 st_ = r["stop"]
                 if st_ is not None and st_ < due - RES:
                     # stopped before the answer was due: nothing may be sent; restarted meanwhile: either
-                    nxt = runs[i][ri + 1] if len(runs[i]) - 1 > ri else None
-                    if nxt is not None and nxt["t0"] <= due + RES and nxt["first"] is not None and nxt["first"] <= due + RES and (nxt["stop"] is None or nxt["stop"] >= due - RES):
+                    later = [x for x in runs[i][ri + 1:] if x["t0"] <= due + RES and x["first"] is not None and x["first"] <= due + RES
+                             and (x["stop"] is None or x["stop"] >= due - RES)]
+                    if later:
                         ready = "either"   # restarted meanwhile and offering again by the time the answer is due
                     else:
                         continue           # stopped, or restarted but still in its initial wait phase: silence
@@ -222,21 +223,31 @@ def run_case(case):
         for tq, remote, idx in queued:
             if remote is not None:
                 got[(remote, idx, round(tq, 9))] += 1
-        # due times and queue times are compared with tolerance RES
-        def near_sum(k, table):
-            # timers less than RES apart fire in one iteration, at the earlier instant: neighbours within 2.5 RES are pooled
-            return sum(c for kk, c in table.items() if kk[0] == k[0] and kk[1] == k[1] and abs(kk[2] - k[2]) < 2.5 * RES)
+        # a timer runs in the iteration whose clock is within RES *before* its deadline: an answer is queued at some
+        # instant in (due - RES, due]. Queue events are matched to due answers per (requester, instance): first every owed
+        # answer takes the earliest unmatched event inside its window, then every remaining event needs an allowed one.
+        def window(tq, due):
+            return due - 1.02 * RES <= tq <= due + 0.02 * RES
 
-        for k in got:
-            c = near_sum(k, got)
-            allowed = near_sum(k, must) + near_sum(k, may)
-            require(c <= allowed, "C12.unexpected-answer",
-                    lambda: f"{c} unicast offer(s) of instance {INST[k[1]]} queued for {k[0]} at t={k[2]:.6f}, at most {allowed} expected there; finds: {[(round(f['t'], 6), f['mc'], f['src'], f['f']) for f in finds]}; runs {runs[k[1]]}")
-        for k in must:
-            c = near_sum(k, must)
-            g = near_sum(k, got)
-            require(g >= c, "C12.missing-answer",
-                    lambda: f"instance {INST[k[1]]} owes {c} answer(s) to {k[0]} due at t={k[2]:.6f}, {g} queued; finds: {[(round(f['t'], 6), f['mc'], f['src'], f['f'], [round(d[2], 6) for d in f['draws']]) for f in finds]}; runs {runs[k[1]]}")
+        groups = set((k[0], k[1]) for k in list(must) + list(may) + list(got))
+        for g in sorted(groups, key=repr):
+            evs = sorted(t_ for k, c in got.items() if (k[0], k[1]) == g for t_ in [k[2]] * c)
+            owed = sorted(t_ for k, c in must.items() if (k[0], k[1]) == g for t_ in [k[2]] * c)
+            allowed = sorted(t_ for k, c in may.items() if (k[0], k[1]) == g for t_ in [k[2]] * c)
+            used = [False] * len(evs)
+            for d_ in owed:
+                hit = next((n_ for n_, t_ in enumerate(evs) if not used[n_] and window(t_, d_)), None)
+                require(hit is not None, "C12.missing-answer",
+                        lambda: f"instance {INST[g[1]]} owes an answer to {g[0]} due at t={d_:.6f}, none queued then (queued {[round(x, 6) for x in evs]}); finds: {[(round(f['t'], 6), f['mc'], f['src'], f['f'], [round(d[2], 6) for d in f['draws']]) for f in finds]}; runs {runs[g[1]]}")
+                used[hit] = True
+            free = list(allowed)
+            for n_, t_ in enumerate(evs):
+                if used[n_]:
+                    continue
+                hit = next((m_ for m_, d_ in enumerate(free) if window(t_, d_)), None)
+                require(hit is not None, "C12.unexpected-answer",
+                        lambda: f"unicast offer of instance {INST[g[1]]} queued for {g[0]} at t={t_:.6f}: no FindService from there is owed (due {[round(x, 6) for x in owed]}) or allowed (due {[round(x, 6) for x in allowed]}) an answer then; finds: {[(round(f['t'], 6), f['mc'], f['src'], f['f']) for f in finds]}; runs {runs[g[1]]}")
+                free.pop(hit)
         # ---- on the wire: unicast answers carry TTL and options, leave within the collection timeout, go to the requester only,
         # and every queued answer is transmitted (exactly one offer per FindService entry reaches the requester)
         wire_count = collections.Counter()
